@@ -417,23 +417,26 @@ func groupByRow(rows [][]string) map[string][][]string {
 	return m
 }
 
-// region reports the known-finding region a statement falls into on the reference model ("" if none).
-func region(d dml, info stmtInfo, m *model) string {
-	if info.failed && info.failedIn == "AFTER" && !kf.Listed(fRollback) || info.failed && info.failedIn == "AFTER" && info.sideEffects == 0 {
-		return fAfterFail
+// regions reports the known-finding regions a statement falls into on the reference model. A
+// statement is dropped from the history when any of them is listed.
+func regions(d dml, info stmtInfo, m *model) []string {
+	var out []string
+	if info.failed && info.failedIn == "AFTER" {
+		// the statement's own row changes stay (together with whatever the triggers wrote)
+		out = append(out, fAfterFail)
 	}
 	if info.failed && info.sideEffects > 0 {
-		return fRollback
+		out = append(out, fRollback)
 	}
 	if ins, ok := d.(dInsert); ok {
 		if ins.odku && info.dupHit {
-			return fOdku
+			out = append(out, fOdku)
 		}
 		if ins.replace && len(m.order["AFTER INSERT"]) > 0 {
-			return fReplaceNew
+			out = append(out, fReplaceNew)
 		}
 	}
-	return ""
+	return out
 }
 
 type outcome struct {
@@ -490,8 +493,15 @@ func runCase(c *tcase, st *stats.Collector, fatal func(string, ...any)) {
 			st.Class("skip-unchanged-row")
 			continue
 		}
-		if reg := region(s.stmt, pinfo, m); reg != "" && kf.Listed(reg) {
-			st.Excluded(reg)
+		excluded := false
+		for _, reg := range regions(s.stmt, pinfo, m) {
+			if kf.Listed(reg) {
+				st.Excluded(reg)
+				excluded = true
+				break
+			}
+		}
+		if excluded {
 			continue
 		}
 		prevAudit := len(m.st.audit)
